@@ -1035,15 +1035,33 @@ FormatterToHTML::writeAttrURI(
             {
                 accumContent(ch);
             }
+            else if (0xd800 <= ch && ch < 0xdc00)
+            {
+                // UTF-16 surrogate.  The reference has to name the
+                // character, not the two code units...
+                XalanUnicodeChar    next = 0;
+
+                if (i + 1 >= theStringLength)
+                {
+                    throwInvalidUTF16SurrogateException(ch, getMemoryManager());
+                }
+                else
+                {
+                    next = theString[++i];
+
+                    if (!(0xdc00 <= next && next < 0xe000))
+                    {
+                        throwInvalidUTF16SurrogateException(ch, static_cast<XalanDOMChar>(next), getMemoryManager());
+                    }
+
+                    next = ((ch - 0xd800) << 10) + next - 0xdc00 + 0x00010000;
+                }
+
+                writeNumberedEntityReference(next);
+            }
             else
             {
-                accumContent(XalanUnicode::charAmpersand);
-                accumContent(XalanUnicode::charNumberSign);
-    
-                accumContent(NumberToDOMString(ch, m_stringBuffer));
-                m_stringBuffer.clear();
-
-                accumContent(XalanUnicode::charSemicolon);
+                writeNumberedEntityReference(ch);
             }
         }
         // Since http://www.ietf.org/rfc/rfc2396.txt refers to the URI grammar as
